@@ -8,6 +8,10 @@ def main():
     import faulthandler
     import signal
     faulthandler.register(signal.SIGUSR1, all_threads=True)     # kill -USR1 <pid> dumps the Python stack (inherited by forked workers)
+    # every execution of the real compiled libraries inside a check is single-threaded: libgomp/OpenBLAS thread pools created in
+    # the parent would deadlock the forked workers (C10's helgrind confirmation sets its own thread count)
+    os.environ["OMP_NUM_THREADS"] = "1"
+    os.environ["OPENBLAS_NUM_THREADS"] = "1"
     ap = argparse.ArgumentParser()
     ap.add_argument("prop")
     ap.add_argument("--tier", default=os.environ.get("VERIF_TIER", "quick"), choices=["quick", "thorough"])
